@@ -62,13 +62,17 @@ func setPlaceholderNames(n *ast.MsgNode) {
 
 		var nextSuffix = 1
 		for _, node := range nodes {
+			// a suffixed name must not collide with the base name of another
+			// placeholder (e.g. $x_1 next to two distinct $x's). Checking the base
+			// names, not the names assigned so far, makes the result independent of
+			// the order in which the base names are visited.
 			for {
 				var newName = baseName + "_" + strconv.Itoa(nextSuffix)
-				if _, ok := nameToRepNodes[newName]; !ok {
+				nextSuffix++
+				if _, ok := baseNameToRepNodes[newName]; !ok {
 					nameToRepNodes[newName] = node
 					break
 				}
-				nextSuffix++
 			}
 		}
 	}
@@ -130,7 +134,8 @@ func genBasePlaceholderName(node ast.Node, defaultName string) string {
 func genBasePlaceholderNameFromExpr(expr ast.Node, defaultName string) string {
 	switch expr := expr.(type) {
 	case *ast.GlobalNode:
-		return toUpperUnderscore(expr.Name)
+		// the last segment of a dotted global name (placeholder names are [A-Z0-9_]+).
+		return toUpperUnderscore(expr.Name[strings.LastIndex(expr.Name, ".")+1:])
 	case *ast.DataRefNode:
 		if len(expr.Access) == 0 {
 			return toUpperUnderscore(expr.Key)
@@ -202,7 +207,12 @@ var (
 func toUpperUnderscore(ident string) string {
 	ident = leadingOrTrailing_.ReplaceAllString(ident, "")
 	ident = consecutive_.ReplaceAllString(ident, "${1}_${2}")
-	ident = wordBoundary1.ReplaceAllString(ident, "${1}_${2}")
+	// word boundaries may be adjacent ("userIdToken"): a match consumes the letter
+	// before the next boundary, so repeat until nothing changes.
+	for prev := ""; prev != ident; {
+		prev = ident
+		ident = wordBoundary1.ReplaceAllString(ident, "${1}_${2}")
+	}
 	ident = wordBoundary2.ReplaceAllString(ident, "${1}_${2}")
 	ident = wordBoundary3.ReplaceAllString(ident, "${1}_${2}")
 	return strings.ToUpper(ident)
